@@ -15,7 +15,7 @@ TOL = 1e-10
 
 def plan(tier, seed):
     q = tier == "quick"
-    return [{"name": "partitions", "kind": "partitions", "nmax": 12 if q else 20, "timeout": 1500},
+    return [{"name": "partitions", "kind": "partitions", "once": True, "nmax": 12 if q else 20, "timeout": 1500},
             {"name": "matrices", "kind": "matrices", "n": 40 if q else 400, "timeout": 1800},
             {"name": "model-1", "kind": "model", "n": 6 if q else 24, "b": 0, "timeout": 2400},
             {"name": "model-2", "kind": "model", "n": 6 if q else 24, "b": 1, "timeout": 2400},
